@@ -8,6 +8,7 @@ import (
 	"os"
 	"os/exec"
 	"path/filepath"
+	"regexp"
 	"runtime"
 	"sort"
 	"strconv"
@@ -109,6 +110,7 @@ var VerifDir = func() string {
 type knownFinding struct {
 	Property string `json:"property"`
 	Class    string `json:"class"`
+	ClassRe  string `json:"class_re,omitempty"` // alternative to class: anchored regular expression
 	What     string `json:"what"`
 	Status   string `json:"status"` // open | fixed
 	Commit   string `json:"commit,omitempty"`
@@ -129,8 +131,16 @@ func loadKnown() []knownFinding {
 
 func isKnown(k []knownFinding, v Violation) *knownFinding {
 	for i := range k {
-		if k[i].Status == "open" && k[i].Property == v.Property && k[i].Class == v.Class {
+		if k[i].Status != "open" || k[i].Property != v.Property {
+			continue
+		}
+		if k[i].Class != "" && k[i].Class == v.Class {
 			return &k[i]
+		}
+		if k[i].ClassRe != "" {
+			if re, err := regexp.Compile("^(?:" + k[i].ClassRe + ")$"); err == nil && re.MatchString(v.Class) {
+				return &k[i]
+			}
 		}
 	}
 	return nil
@@ -397,9 +407,9 @@ func runMain(id, tier string) int {
 			v.Property = id
 		}
 		if k := isKnown(known, v); k != nil {
-			if !knownSeen[k.Class] {
-				knownSeen[k.Class] = true
-				fmt.Printf("KNOWN-FINDING: property=%s %s [%s]\n", v.Property, k.What, k.Class)
+			if !knownSeen[k.Class+k.ClassRe] {
+				knownSeen[k.Class+k.ClassRe] = true
+				fmt.Printf("KNOWN-FINDING: property=%s %s [%s%s]\n", v.Property, k.What, k.Class, k.ClassRe)
 			}
 			continue
 		}
